@@ -39,4 +39,17 @@ def v2cnSet (t : V2Cn) (v : Nat) (l : List Nat) : V2Cn := t.set v l
 /-- `self._adjV2Cn[v].add(c)` -/
 def v2cnAdd (t : V2Cn) (v c : Nat) : V2Cn := t.set v (setAdd (t.getD v []) c)
 
+
+/-! `_sort_vertex_neighborhoods` -/
+abbrev IdxDict := List (Option Nat × Int)     -- `sort_index`: corner (or `None`) ↦ rank, most recent write first
+abbrev VIdx := List (Nat × Option Int)        -- `sort_indexV`: vertex ↦ rank, `none` = `-inf`
+def idxFind (d : IdxDict) (k : Option Nat) : Option Int := (d.find? fun e => e.1 == k).map (·.2)
+/-- `sort_index[c]` (every corner of the vertex is a key from the start, with rank 0) -/
+def idxGet (d : IdxDict) (k : Option Nat) : Int := (idxFind d k).getD 0
+def vidxGet (d : VIdx) (k : Nat) : Option Int := ((d.find? fun e => e.1 == k).map (·.2)).getD none
+/-- `len(sort_index)`: the number of distinct keys -/
+def idxLen (d : IdxDict) : Nat := (d.map (·.1)).eraseDups.length
+/-- `l.sort(key=…)`: Python's sort is stable, like `mergeSort` -/
+def sortByKey {κ} (le : κ → κ → Bool) (key : Nat → κ) (l : List Nat) : List Nat := l.mergeSort fun a b => le (key a) (key b)
+
 end Mouette.SurfSource
